@@ -10,6 +10,7 @@ program, runs them with the real scheduler (blocking do(), or ado() under the
 virtual asyncio loop) and records a trace.  Oracles live in the check modules
 and in models/schedmodel.py.
 """
+from .core import CaseTimeout as _CaseTimeout
 import gc
 from collections import deque
 
@@ -370,6 +371,8 @@ def _wake(run, nid, tyme):
         run.ev("extend_call", nid, run.sid(sched), run.ids_of(arg), run.ids_of(sched.doers))
         try:
             sched.extend(arg)
+        except _CaseTimeout:
+            raise
         except BaseException as ex:
             st.outcome = "kbint" if isinstance(ex, KeyboardInterrupt) else "raise"
             run.ev("extend_raise", nid, run.sid(sched), type(ex).__name__)
@@ -525,6 +528,8 @@ def build(prog, res=None):
                 run.ev("enter", s._nid, s.tyme)
             try:
                 return super().enter(doers=doers, temp=temp)
+            except _CaseTimeout:
+                raise
             except BaseException as ex:
                 if doers is None:
                     st = run.st[s._nid]
@@ -536,6 +541,8 @@ def build(prog, res=None):
             st = run.st[s._nid]
             try:
                 r = super().recur(tyme, deeds=deeds)
+            except _CaseTimeout:
+                raise
             except BaseException as ex:
                 st.exc_kind = "kbint" if isinstance(ex, KeyboardInterrupt) else "raise"
                 raise
@@ -655,6 +662,8 @@ def execute(prog, res=None, mode="do", vloop_factory=None, noise=None):
             run.result = ("return",)
             run.ev("do_return")
         except HarnessError:
+            raise
+        except _CaseTimeout:
             raise
         except BaseException as ex:
             exc = ex
